@@ -2,6 +2,7 @@
 signedHex (an implementation sharing nothing with hashlib), plus an independent Python oracle of
 BigInteger.toString(16)."""
 import hashlib
+import types
 
 from lib import hx
 
@@ -133,13 +134,21 @@ def run(ctx):
     for sid in ('', 'srv-é', 'a1b2c3', '\ufeffsrv', '\ufeff'):
         joins = []
 
-        class Tok:
-            class profile:
-                name = 'Prof'
+        # the REAL AuthenticationToken.join: what is judged is the `serverId` of the body posted to the session service
+        import json as _json
+        from minecraft import authentication as A_
 
-            def join(self, server_id):
-                joins.append(server_id)
-                return True
+        def post(url, data=None, headers=None, timeout=None, joins=joins):
+            if url.endswith('/join'):
+                joins.append(_json.loads(data).get('serverId'))
+            return types.SimpleNamespace(status_code=204, text='', json=lambda: {})
+
+        def Tok():
+            t = A_.AuthenticationToken(username='acct', access_token='at', client_token='ct')
+            t.profile = A_.Profile(id_='0123456789abcdef0123456789abcdef', name='Prof')
+            return t
+        saved_post = A_.requests.post
+        A_.requests.post = post
         expected = []
         for conn_no in range(2):
             cfg = {'version': 757, 'rsa': '1024', 'script': []}
@@ -154,6 +163,7 @@ def run(ctx):
                         expected.append(java_hex(hashlib.sha1(sid.encode('utf-8') + srv.secret + srv.key['der']).digest()))
                     conn.disconnect()
                     net.run_threads()
+        A_.requests.post = saved_post
         ctx.case(('join-sequence', sid))
         if joins != expected or len(expected) != 4:
             bad_at = next((i for i, (a, b) in enumerate(zip(joins, expected)) if a != b), min(len(joins), len(expected)))
@@ -161,6 +171,50 @@ def run(ctx):
                           'Java would compute %s' % (sid, bad_at + 1, joins[bad_at] if bad_at < len(joins) else None,
                                                      expected[bad_at] if bad_at < len(expected) else None),
                           {'server_id': sid, 'joins': joins, 'expected': expected}, key={'kind': 'join-sequence', 'server_id': sid})
+    # ---- ONE token shared by two connections that log in to different servers at the same time: the other login's join()
+    # runs in the middle of this one (forced at a call the body construction makes anyway: Profile.to_dict); each request
+    # must carry the hash its own caller passed in
+    import json as _json
+    from minecraft import authentication as A_
+    for trial in range(ctx.scale(6, 40)):
+        posted = []
+
+        def post(url, data=None, headers=None, timeout=None, posted=posted):
+            if url.endswith('/join'):
+                posted.append(_json.loads(data).get('serverId'))
+            return types.SimpleNamespace(status_code=204, text='', json=lambda: {})
+        ha = encryption.generate_verification_hash('srvA%d' % trial, bytes([trial]) * 16, b'keyA')
+        hb = encryption.generate_verification_hash('srvB%d' % trial, bytes([trial + 1]) * 16, b'keyB')
+        tok = A_.AuthenticationToken(username='acct', access_token='at', client_token='ct')
+        depth = {'n': 0}
+
+        class HookedProfile(A_.Profile):
+            def to_dict(self):
+                depth['n'] += 1
+                try:
+                    if depth['n'] == 1 and trial % 2 == 0:
+                        tok.join(hb)                 # the other connection's login, complete, in the middle of this one
+                    return A_.Profile.to_dict(self)
+                finally:
+                    depth['n'] -= 1
+        tok.profile = HookedProfile(id_='0123456789abcdef0123456789abcdef', name='Prof')
+        saved_post = A_.requests.post
+        A_.requests.post = post
+        try:
+            tok.join(ha)
+            if trial % 2:
+                tok.join(hb)
+        except Exception as e:
+            posted.append('raised %r' % (e,))
+        finally:
+            A_.requests.post = saved_post
+        ctx.case(('shared-token-joins', trial))
+        ctx.count('shared-token-joins.' + ('overlapping' if trial % 2 == 0 else 'sequential'))
+        want = [hb, ha] if trial % 2 == 0 else [ha, hb]
+        if posted != want:
+            ctx.violation('one token, two logins (%s): the session service was sent serverId %r, the callers passed %r'
+                          % ('the second join runs while the first builds its request' if trial % 2 == 0 else 'one after the other', posted, want),
+                          {'posted': posted, 'passed': want}, key={'kind': 'shared-token-joins', 'overlap': trial % 2 == 0})
     # ---- logins running at the same time in several threads (every connection has its own networking thread):
     # each call hashes its OWN three inputs.  Seeded inputs, a tiny switch interval, bounded work.
     import sys as _sys
